@@ -16,6 +16,7 @@ def gen_case(rng, thorough):
         multi = rng.random() < 0.4
         when = {"who": "?w"} if not multi else {"tags": ["?t"], "who": "?w"}       # an array pattern with a variable: one `when` binding per element
         if rng.random() < 0.2: when = {"other": "?o"}
+        if rng.random() < 0.15: when = dict(when, who=rng.choice(["?location", "?ruleId", "?event"]))   # a pattern may bind these names itself: they are then not overwritten
         r = {"when": {"pattern": when}}
         c = rng.random()
         if c < 0.45: r["condition"] = {"pattern": {"who": "?w", "likes": "?l"}}
@@ -35,6 +36,7 @@ def gen_case(rng, thorough):
         if k == 1 and rng.random() < 0.5: r["action"] = acts[0]
         else: r["actions"] = acts
         if rng.random() < 0.25: r["policies"] = {"serialActions": True}
+        if rng.random() < 0.15: r["id"] = rng.choice(["r0", "zz", "r%d" % ((i + 1) % 4)])     # an `id` inside the rule body is data: the rule is known by the id it is stored under
         ops.append({"op": "addRule", "loc": "a", "id": "r%d" % i, "rule": r})
         if rng.random() < 0.1: ops.append({"op": "enableRule", "loc": "a", "id": "r%d" % i, "enable": False})
     for _ in range(rng.randint(1, 3)):
@@ -70,6 +72,7 @@ def main():
     for c, i in zip(mc, impl):
         outs = (i or {}).get("outs") or []
         nact = {o["id"]: len(o["rule"].get("actions") or [o["rule"].get("action")]) for o in c["ops"] if o["op"] == "addRule"}
+        binds_builtin = {o["id"]: any(v in json.dumps(o["rule"].get("when")) for v in ("?location", "?ruleId", "?event")) for o in c["ops"] if o["op"] == "addRule"}
         for k, op in enumerate(c["ops"]):
             if op["op"] != "event" or k >= len(outs) or not isinstance(outs[k], dict): continue
             t = outs[k]
@@ -86,7 +89,7 @@ def main():
                     ck.violation("rule %s: %d when-bindings but %d condition nodes" % (r["id"], len(r.get("bss") or []), len(r.get("conds") or [])), rp, tag="conds")
                 for cn in r.get("conds") or []:
                     bs = cn.get("bs") or {}
-                    if bs.get("?ruleId") != r["id"] or bs.get("?location") != "a" or canon(sort_arrays(bs.get("?event"))) != canon(sort_arrays(op["event"])):
+                    if not binds_builtin.get(r["id"]) and (bs.get("?ruleId") != r["id"] or bs.get("?location") != "a" or canon(sort_arrays(bs.get("?event"))) != canon(sort_arrays(op["event"]))):
                         ck.violation("rule %s: condition bindings lack event/location/ruleId: %s" % (r["id"], canon(bs)[:200]), rp, tag="env")
                     if nact.get(r["id"]) and len(cn.get("acts") or []) % nact[r["id"]] != 0:
                         ck.violation("rule %s has %d actions but its condition node carries %d action nodes" % (r["id"], nact[r["id"]], len(cn.get("acts") or [])), rp, tag="count")
